@@ -56,6 +56,43 @@ def norm(x, depth=0):
     return ("obj", type(x).__name__, str(x))
 
 
+def _shape(v, depth=0):
+    """Cheap structural summary of a field value: type, size, and for containers the types (and identities of
+    lines) of the elements - enough to see a list of lines turn into a list of strings, at a cost that does not
+    grow with the square of the document."""
+    if isinstance(v, gfapy.Line):
+        return ("line", id(v))
+    if isinstance(v, gfapy.OrientedLine):
+        return ("ol", _shape(v.line, depth + 1), v.orient)
+    if isinstance(v, (list, tuple)) or isinstance(v, gfapy.FieldArray):
+        seq = list(v._data) if isinstance(v, gfapy.FieldArray) else list(v)
+        return (type(v).__name__, len(seq), tuple(_shape(x, depth + 1) for x in seq) if depth < 2 else len(seq))
+    if isinstance(v, dict):
+        return ("dict", len(v), hash(repr(sorted(v.items(), key=repr))))
+    if isinstance(v, str):
+        return ("str", len(v), hash(v))
+    return (type(v).__name__, hash(str(v)))
+
+
+def fingerprint_light(gfa):
+    fp = {}
+    lines = O.all_lines(gfa, split_headers=False)
+    per = []
+    for l in lines:
+        ent = [id(l), bool(l.virtual), l.is_connected()]
+        for fn in list(l.positional_fieldnames) + list(l.tagnames):
+            ent.append((fn, l._datatype.get(fn), _shape(l._data.get(fn))))
+        for key in sorted(l._refs):
+            ent.append((key, tuple(id(x) for x in l._refs[key])))
+        per.append(ent)
+    fp["lines"] = per
+    fp["n"] = len(lines)
+    fp["names"] = [list(gfa.segment_names), list(map(str, gfa.edge_names)), list(gfa.gap_names), list(gfa.path_names), list(gfa.set_names)]
+    fp["ver"] = (gfa.version, gfa.vlevel)
+    fp["text"] = str(gfa)  # (written last: writing is itself one of the read-only operations under test)
+    return fp
+
+
 def fingerprint(gfa, extra_lines=(), canon=False):
     fp = {}
     t = str(gfa)
@@ -224,13 +261,22 @@ def prop(case):
                 l.get(fn)
             except Exception:
                 pass
-    str(g)
+    if not case.get("light"):
+        str(g)
     lines = [l for l in g.lines if l.record_type != "H"] + [g.header]
     if not lines:
         return {"nt": False}
     kinds = set()
     touched_id = False
     touched_group = False
+    light = bool(case.get("light"))
+    if light:
+        canon = False
+
+        def fingerprint(g_, canon=False):  # noqa: F811  (the cheap fingerprint for documents with hundreds of lines)
+            return fingerprint_light(g_)
+    else:
+        fingerprint = globals()["fingerprint"]
     fp = fingerprint(g, canon=canon)
     for step, (name, i, j, k) in enumerate(case["calls"]):
         pred, fn = CAT[name]
@@ -382,9 +428,52 @@ def st_queue_case(draw):
     return {"lines": lines, "vlevel": r.randrange(4), "calls": calls, "then": list(DECIDING[v])}
 
 
+BIG_CALLS = ["str", "to_list", "to_str", "clone", "field_to_s", "get", "validate", "group_items", "induced_set", "induced_parts",
+             "captured_path", "captured_parts", "path_links", "gfa_str", "eq", "refstr", "all_references", "seg_wo_sequence", "gfa_collections"]
+
+
+def build_big(r, version):
+    """A document with long fields: groups and paths over more than a hundred segments, sequences, strings, arrays and
+    JSON values of several hundred characters (what a library may treat differently above some size)."""
+    n = r.randint(105, 130)
+    lines = []
+    longseq = "".join(gen.choice(r, "ACGT") for _ in range(r.randint(520, 700)))
+    big_tags = [["zb", "B", "i," + ",".join(str(r.randint(-5, 300)) for _ in range(260))],
+                ["zj", "J", "[" + ", ".join(str(r.randint(0, 9)) for _ in range(300)) + "]"],
+                ["zz", "Z", "x" * r.randint(520, 600)], ["zh", "H", "AF" * 300]]
+    # the lines with long fields come first: the call sequences pick lines by small indices
+    if version == "gfa2":
+        lines.append(["U", ["bigset", " ".join("s%d" % i for i in range(n))], [big_tags[2]]])
+        lines.append(["O", ["bigpath", " ".join(x for i in range(n - 1) for x in ("s%d+" % i, "e%d+" % i)) + " s%d+" % (n - 1)], []])
+        lines.append(["O", ["bigsegs", " ".join("s%d+" % i for i in range(n))], []])
+        lines.append(["S", ["s0", str(len(longseq)), longseq], big_tags[:2]])
+        lines.append(["S", ["s1", "10", "*"], big_tags[2:]])
+        lines += [["S", ["s%d" % i, "10", "*"], []] for i in range(2, n)]
+        lines += [["E", ["e%d" % i, "s%d+" % i, "s%d+" % (i + 1), ("%d" % (len(longseq) - 2)) if i == 0 else "8", ("%d$" % len(longseq)) if i == 0 else "10$", "0", "2", "2M"], []]
+                  for i in range(n - 1)]
+    else:
+        lines.append(["P", ["bigp", ",".join("s%d+" % i for i in range(n)), ",".join(["2M"] * (n - 1))], [big_tags[2]]])
+        lines.append(["P", ["bigq", ",".join("s%d+" % i for i in range(n)), "*"], []])
+        lines.append(["S", ["s0", longseq], big_tags[:2]])
+        lines.append(["S", ["s1", "*"], [["LN", "i", "10"]] + big_tags[2:]])
+        lines += [["S", ["s%d" % i, "*"], [["LN", "i", "10"]]] for i in range(2, n)]
+        lines += [["L", ["s%d" % i, "+", "s%d" % (i + 1), "+", "2M"], []] for i in range(n - 1)]
+    return {"version": version, "lines": lines}
+
+
+@st.composite
+def st_big_case(draw):
+    r = draw(st.randoms(use_true_random=False))
+    v = gen.choice(r, ["gfa1", "gfa2"])
+    calls = [[gen.choice(r, BIG_CALLS), r.randint(0, 4), r.randint(0, 4), r.randint(0, 3)] for _ in range(r.randint(4, 9))]
+    return {"doc": build_big(r, v), "vlevel": gen.choice(r, [1, 1, 2, 3]), "calls": calls, "light": True}
+
+
 def parts(tier):
     q = tier == "quick"
     return [Part("purity", prop, strategy=st_case(), n=200 if q else 1500, quick_shards=4),
+            Part("purity-big", prop, strategy=st_big_case(), n=12 if q else 80, quick_shards=4,
+                 note="documents with long fields (groups and paths over 105-130 segments, values of several hundred characters)"),
             Part("purity-groups", prop, strategy=st_group_case(), n=150 if q else 1000, quick_shards=2),
             Part("purity-queue", prop_queue, strategy=st_queue_case(), n=300 if q else 2000,
                  note="Gfa of unknown version with queued lines; Gfa-level queries only")]
